@@ -17,7 +17,7 @@ CHECKS = {
     "C03": ("Every catalogue operation (about 130 entries: join/meet kinds, incidence, dist, angle, cross ratios, harmonic sets, constructions, "
             "predicates, transformations on every object kind, quadric contains / intersect / tangent / polar / dual / components, conic x conic, polytope "
             "contains / intersect / area / centroid / distances) x every argument position (every vertex of a polytope) x every scale factor of "
-            "{-3,-2,-1,-1/2,1/2,2,3} (+ i, -i, 1+i for the algebraic operations; thorough adds 1/4, 5, 1e3, 1e-3) x up to 24 exact base configurations: "
+            "{-3,-2,-1,-1/2,1/2,2,3} (+ i, -i, 1+i for the algebraic operations; thorough adds 1/4, 5, 10, 1/10) x up to 24 exact base configurations: "
             "the rescaled call must give identical predicates, equal numbers (angles mod pi), projectively equal objects, equal multisets; == is "
             "checked on all pairs of lattice points / lines / planes (true exactly for exact multiples, reflexive, symmetric), 3D lines, conics, "
             "transformations and collections; polygon membership and area under all sign patterns of the vertex weights.",
